@@ -38,6 +38,9 @@ CONSTANTS Cfgs,        \* endpoint configurations: [id, main, allowed, ping, spe
 
 Creds       == "@creds"      \* the credentials label a client puts in front of a main host
 Password    == "@pw"         \* the configured password of the client (inside a valid Basic credential)
+\* RFC 7617: the user-id contains no colon, the password may.  The atom stands for the password in each of these shapes
+\* (the harness rotates them over the scenarios); a part of the password delimited by its colons counts as the password.
+PasswordShapes == { "plain", "one-colon", "two-colons" }
 Placeholder == "scrubbed"
 
 Range(f) == { f[i] : i \in DOMAIN f }
